@@ -374,7 +374,7 @@ def run_shard(spec, acc):
                     judge(segs, stream, required, windows, damaged, [a, b], sim, stats, samples, acc, "two_cuts")
         acc.set_exhaustive(f"single cut at every offset of a {len(stream)}-byte damaged stream", True)
         return
-    for rep in range(10 if quick else 60):
+    for rep in range(10 if quick else 300):
         segs = build_stream(rng, rng.randint(6, 25), 300 if quick else 5000)
         stream, required, windows, damaged = ground_truth(segs)
         n = len(stream)
